@@ -628,7 +628,13 @@ def _ax_sin(v, args, L):
 
 
 def _ax_exp(v, args, L):
-    out = [v > 0]
+    (x,) = args
+    out = [v > 0, z3.Implies(x <= 0, v <= 1), z3.Implies(x >= 0, v >= 1), z3.Implies(x == 0, v == 1)]
+    # monotonicity against the exp atoms already lowered (instantiated pairwise, no quantifiers)
+    for (v2, args2) in L.fn_groups.get('exp', [])[:-1]:
+        x2 = args2[0]
+        out.append(z3.Implies(x <= x2, v <= v2))
+        out.append(z3.Implies(x2 <= x, v2 <= v))
     return out
 
 
@@ -650,7 +656,8 @@ def _ax_atan2(v, args, L):
 def _ax_asin(v, args, L):
     pi = L.atom(T.PI().num.lead()[0][0][0])
     (u,) = args
-    return [v <= pi / 2, v >= -pi / 2, z3.Implies(u >= 0, v >= 0), z3.Implies(u <= 0, v <= 0)]
+    return [v <= pi / 2, v >= -pi / 2, z3.Implies(u >= 0, v >= 0), z3.Implies(u <= 0, v <= 0),
+            z3.Implies(u > 0, v > 0), z3.Implies(u < 0, v < 0), z3.Implies(u == 0, v == 0)]
 
 
 FN_AXIOMS = {'sin': _ax_sin, 'cos': _ax_sin, 'exp': _ax_exp, 'atan2': _ax_atan2, 'asin': _ax_asin}
